@@ -26,8 +26,11 @@ Fixpoint strs_eqb (a b : list str) : bool :=
   | x :: a', y :: b' => str_eqb x y && strs_eqb a' b'
   | _, _ => false
   end.
+Definition base_eqb (a b : option pytype) : bool :=
+  match a, b with Some x, Some y => pytype_eqb x y | None, None => true | _, _ => false end.
 Definition cls_eqb (a b : cls) : bool :=
-  str_eqb (c_mod a) (c_mod b) && strs_eqb (c_qual a) (c_qual b) && kind_eqb (c_kind a) (c_kind b) && Z.eqb (c_id a) (c_id b).
+  str_eqb (c_mod a) (c_mod b) && strs_eqb (c_qual a) (c_qual b) && kind_eqb (c_kind a) (c_kind b) && Z.eqb (c_id a) (c_id b)
+  && base_eqb (c_base a) (c_base b).
 
 Definition cname (c : cls) : str := last (c_qual c) [].                    (* cls.__name__ *)
 Definition cqualname (c : cls) : str := join_dots (c_qual c).              (* cls.__qualname__ *)
@@ -98,6 +101,11 @@ Section Serializer.
   Variable usplit : cls -> list (str * jv) -> option (P * list jv).
   Variable rser : cls -> P -> list (str * jv).
   Variable rdeser : cls -> list (str * jv) -> option P.
+  (* for objects that are also instances of a builtin type: the builtin value json sees for an int / float / str-derived
+     object, and the (leaf) items of a registered list / tuple / set-derived object; the items of a list-derived
+     SubclassJSONSerializer object are its child values *)
+  Variable as_leaf : P -> jv.
+  Variable as_items : P -> list jv.
 
   (* isinstance(obj, <tuple of builtin types>) on a Python value *)
   Definition value_isinstance (v : value P) (ts : list pytype) : bool :=
@@ -108,7 +116,7 @@ Section Serializer.
     | VFloat _ => type_isinstance Tfloat ts
     | VStr _ => type_isinstance Tstr ts
     | VList _ => type_isinstance Tlist ts
-    | VObj _ _ _ => false
+    | VObj c _ _ => match c_base c with Some t => type_isinstance t ts | None => false end
     end.
   Definition value_is_ser (v : value P) : bool :=
     match v with VObj c _ _ => kind_eqb (c_kind c) KSer | _ => false end.
@@ -121,7 +129,8 @@ Section Serializer.
     match v with
     | VNone => Return JNull | VBool b => Return (JBool b) | VInt z => Return (JInt z)
     | VFloat f => Return (JFloat f) | VStr s => Return (JStr s)
-    | _ => RaiseF Exception_      (* unreachable: dispatch returns the object itself only for leaves *)
+    | VObj _ own _ => Return (as_leaf own)   (* an object that is an int / float / str instance is handed to json as it is *)
+    | VList _ => RaiseF Exception_           (* unreachable: a list is never an instance of a leaf type *)
     end.
 
   Definition lift_arr (o : outcome jerr (list jv)) : outcome jerr jv :=
@@ -133,6 +142,11 @@ Section Serializer.
     | Return TJ_MapToJson =>
         match v with
         | VList l => lift_arr (sequence (map to_json l))
+        | VObj c own kids =>          (* an object that is a list / tuple / set instance: [to_json(item) for item in obj] *)
+            match c_kind c with
+            | KReg => Return (JArr (as_items own))
+            | _ => lift_arr (sequence (map to_json kids))
+            end
         | _ => RaiseF Exception_
         end
     | Return TJ_CallMethod =>
@@ -241,7 +255,8 @@ Fixpoint jv_tags (j : jv) : list str :=
   | _ => []
   end.
 
-(* ---- the fragment F of the round-trip theorem: the class is not function-local, and its own tag names it -- i.e. the
+(* ---- the fragment F of the round-trip theorem: the class is not function-local, does not also derive from a builtin type
+   (the leaf / list tests of to_json come before the serialiser tests: finding C18-d), and its own tag names it -- i.e. the
    C19 decision table, read on this world, resolves "<module>.<qualified name>" to the class itself
    (C18_fragment_is_named_classes gives the structural conditions under which that holds) *)
 Definition names_itself (w : world) (c : cls) : bool :=
@@ -250,7 +265,8 @@ Definition names_itself (w : world) (c : cls) : bool :=
   | RByRegistry c' _ => cls_eqb c' c && kind_eqb (c_kind c) KReg
   | RError _ => false
   end.
-Definition cls_ok (w : world) (c : cls) : bool := negb (is_local c) && names_itself w c.
+Definition no_builtin_base (c : cls) : bool := match c_base c with None => true | Some _ => false end.
+Definition cls_ok (w : world) (c : cls) : bool := negb (is_local c) && no_builtin_base c && names_itself w c.
 Definition value_ok {P} (w : world) (v : value P) : bool := in_grammar v && forallb (cls_ok w) (objects v).
 
 (* ---- sample user code = the classes of the correspondence harness (harness/c18.py), payload = a JSON value *)
@@ -271,6 +287,9 @@ Definition s_rser (t : cls) (p : jv) : list (str * jv) :=
   [(JSON_TYPE_NAME, JStr (full_name t)); (K_VALUE, p)].
 Definition s_rdeser (t : cls) (d : list (str * jv)) : option jv := dict_get d deserialize_uuid_key.
 
+Definition s_as_leaf (own : jv) : jv := own.
+Definition s_as_items (own : jv) : list jv := match own with JArr l => l | _ => [] end.
+
 Definition outcome_value_sx (o : option (outcome jerr (value jv))) (tags : list str) : sx :=
   match o with
   | None => SL [SZ 40]
@@ -280,7 +299,7 @@ Definition outcome_value_sx (o : option (outcome jerr (value jv))) (tags : list 
   end.
 
 Definition model_round_trip (w : world) (v : value jv) : sx :=
-  match to_json jv s_ufields s_rser v with
+  match to_json jv s_ufields s_rser s_as_leaf s_as_items v with
   | Return j => outcome_value_sx (from_json jv s_usplit s_rdeser w (S (S (value_depth v))) (json_text j)) (jv_tags j)
   | RaiseJ e => SL [SZ 20; SZ (jerr_code e)]
   | RaiseF e => SL [SZ 30; SZ (pyexn_code e)]
